@@ -289,8 +289,9 @@ def gen_simple(ch, topic, own_alias_prob=4):
 def gen_event(ch, topics):
     w = ch.pick([1, 1, 1, 2, 2, 3, 4])
     ts_ = ch.sample(topics, min_size=w, max_size=w)
-    if ch.int(0, 24) == 0 and w >= 2:
-        ts_[1] = ts_[0]  # duplicate channel fault
+    if ch.int(0, 11) == 0 and w >= 2:
+        j = ch.int(1, w - 1)
+        ts_[j] = ts_[ch.int(0, j - 1)]  # duplicate channel fault: any two alternatives, adjacent or not
     evs = [gen_simple(ch, t) for t in ts_]
     if w == 1:
         return evs[0]
@@ -409,6 +410,27 @@ def _shadow_part(ch, bound, depth):
     return ('q', ch.pick(['forall', 'exists']), n, dom, body)
 
 
+def dup_table():
+    """Clause (iii), deterministically: disjunctions of width 2-4 in every event position, every pair of alternatives on the
+    same channel (and none, as control), every nesting shape of the API-built disjunction."""
+    names = ('a', 'b', 'c', 'd')
+    for role in ('behaviour', 'trigger', 'activator', 'terminator'):
+        for w in (2, 3, 4):
+            pairs = [None] + [(i, j) for j in range(w) for i in range(j)]
+            for pair in pairs:
+                tops = list(names[:w])
+                if pair:
+                    tops[pair[1]] = tops[pair[0]]
+                disj = ('disj', tuple(('ev', t, None, None) for t in tops))
+                other = ('ev', 'z', None, None)
+                sk = {'activator': 'after', 'terminator': 'until'}.get(role, 'globally')
+                pk = 'response' if role == 'trigger' else 'absence'
+                scope = ('scope', sk, disj if role == 'activator' else None, disj if role == 'terminator' else None)
+                pat = ('pat', pk, disj if role == 'trigger' else None, disj if role == 'behaviour' else other, None)
+                for nest in (0, 1, 2, 3, 4, 5, 7, 11):
+                    yield {'m': ('prop', (), scope, pat), 'nest': nest}
+
+
 def gen_shadow_case(ch):
     """Quantifier variables, event aliases and free references drawn from one small pool of names: a name bound by a
     quantifier is bound only inside that quantifier (a sibling or later use of the same name is a free reference that an
@@ -520,6 +542,16 @@ def shard(ctx, shard_no, nshards, n):
 
     with ctx.timed('hygiene'):
         core.run_hypothesis(ctx, 'hygiene', from_tape(gen_hygiene_case, 64), body_h, max(100, n // 5))
+
+    if shard_no == 0:
+        with ctx.timed('duplicate-channel-table'):
+            for inp in dup_table():
+                try:
+                    w = sub_sanity(inp)
+                except Violation as v:
+                    ctx.report(v)
+                    w = 'violation'
+                ctx.case((mast.render(inp['m']), inp['nest']), True, 'duplicate-channel-table:' + w)
 
     def body_s(inp):
         w = sub_sanity(inp)
